@@ -66,7 +66,7 @@ LEVEL_NOTE = (
 CLASSES = [
     "shape_change", "shrink_to_one_job", "grow_from_one_job", "subset_job_ids", "custom_path",
     "nested_key", "value_with_space", "int_float_pair", "reject_sep", "reject_nonunique",
-    "reject_leafnode", "empty_project", "expected_runtimeerror",
+    "reject_leafnode", "empty_project", "expected_runtimeerror", "job_ids_one_shot_iterator",
 ]
 ASSUMPTIONS = [
     "state point leaves are ints, floats, bools, strings (no lists, None, empty mappings); strings and keys are "
@@ -218,6 +218,13 @@ def sep_scan(sp, depth=0):
     return top, nested
 
 
+def _tidy(h):
+    if h.startswith("/") or ".." in h.split("/"):
+        return h
+    toks = [t for t in h.split("/") if t not in ("", ".")]
+    return "/".join(toks)
+
+
 def bad_token(s):
     return s in ("", ".", "..") or "{" in s or "}" in s
 
@@ -351,6 +358,8 @@ def predict(sel, path):
         heads.append(s)
     if missing:
         return Pred("must", "missing_key", None, shape)
+    # redundant components of a relative path ('./a', 'a//b', 'a/./b') denote the same place as the tidy spelling
+    heads = [_tidy(h) for h in heads]
     marker = None
     for m, fs in (("{auto}", None), ("{auto:_}", "_")):
         if all(h.endswith(m) for h in heads):
@@ -553,8 +562,16 @@ class _Run:
     # ---- the call under test
     def call(self, prefix, ids, path):
         """-> ("ok"|"reject"|"error", exception)"""
+        # job_ids is "an iterable of job ids": hand it over in turn as list, tuple, one-shot iterator, generator
+        self.ncalls = getattr(self, "ncalls", 0) + 1
+        given = ids
+        if ids is not None:
+            form = self.ncalls % 4
+            given = [list(ids), tuple(ids), iter(list(ids)), (i for i in list(ids))][form]
+            if form >= 2:
+                self.classes.add("job_ids_one_shot_iterator")
         try:
-            self.proj().create_linked_view(prefix=prefix, job_ids=ids, path=path)
+            self.proj().create_linked_view(prefix=prefix, job_ids=given, path=path)
             return "ok", None
         except RuntimeError as e:
             return "reject", e
@@ -852,7 +869,7 @@ UNIVERSES = {
         "paths": ["lp/{{auto}}", "{a0}", "a0/{a0}/{{auto}}", "{job.sp.a0}/{{auto}}"],
     },
 }
-COMMON_PATHS = ["static", "{{auto}}", "v/{{auto}}", "{{auto:_}}", "id/{job.id}"]
+COMMON_PATHS = ["static", "{{auto}}", "v/{{auto}}", "{{auto:_}}", "id/{job.id}", "./id/{job.id}", "id//{job.id}", "v/./{{auto}}", "./{{auto}}"]
 
 
 def _clean(sp):
